@@ -4,6 +4,7 @@ Everything here is plain Python that CrossHair can execute symbolically. The rea
 valida modules are imported from /repo's current working tree (via the venv's .pth).
 """
 import copy
+import enum
 import os
 import sys
 import pathlib
@@ -133,20 +134,24 @@ def idsnap(*roots):
     seen = set()
 
     def val(v):
+        t = type(v)
+        # plain values first: never call hasattr()/callable() on a symbolic atom
+        if v is None or t is int or t is bool or t is str or t is float:
+            return ("v", tx(v))
+        if t is tuple or t is list:
+            return (t.__name__, tuple(val(i) for i in v))
+        if t is dict:
+            return ("dict", tuple((val(k), val(i)) for k, i in v.items()))
         if isinstance(v, _VALIDA_CLASSES):
             walk(v)
             return ("@", id(v))
-        if type(v) is tuple or type(v) is list:
-            return (type(v).__name__, tuple(val(i) for i in v))
-        if type(v) is dict:
-            return ("dict", tuple((val(k), val(i)) for k, i in v.items()))
-        if callable(v) and not isinstance(v, type):
-            return ("fn", getattr(v, "__name__", "?"))
         if isinstance(v, type):
             return ("type", v.__name__)
-        if hasattr(v, "name") and hasattr(v, "value") and type(v).__module__.startswith("valida"):
+        if isinstance(v, enum.Enum):
             return ("enum", v.name)
-        return ("v", tx(v))
+        if callable(v):
+            return ("fn", getattr(v, "__name__", "?"))
+        return ("other", t.__name__, id(v))
 
     def walk(o):
         if id(o) in seen:
